@@ -29,9 +29,9 @@ type C16Outer struct {
 }
 
 type C16Inner struct {
-	Name string `valid:"to=1~3|tag_inner_name"`
-	Age  int    `valid:"le=5|tag_inner_age"`
-	Code string `valid:"int|tag_inner_code"`
+	Name string    `valid:"to=1~3|tag_inner_name"`
+	Age  int       `valid:"le=5|tag_inner_age"`
+	Code string    `valid:"int|tag_inner_code"`
 	Deep *C16Other `valid:"exist"`
 }
 
